@@ -141,6 +141,9 @@ func runC06On(c *Ctx, pfx string, patterns []string, minPairs int) {
 				// layer 2 under the distinct-parameter assumption, when both sides establish it at all their call sites
 				okF, nF := distinctArgsAtAllCallSites(c.P, c.An, ff)
 				okR, nR := distinctArgsAtAllCallSites(ref, refAn, rf)
+				// ... or the function itself returns before its first store when the two coincide (move: if e == at { return })
+				okF = okF || selfEstablishesDistinct(c.An, ff)
+				okR = okR || selfEstablishesDistinct(refAn, rf)
 				if okF && okR {
 					da, u1 := canonPathsOpt(c.An, ff.SSA, rename, true)
 					db, u2 := canonPathsOpt(refAn, rf.SSA, nil, true)
@@ -191,6 +194,13 @@ func runC06On(c *Ctx, pfx string, patterns []string, minPairs int) {
 			mention(sig.Results())
 		}
 		if onRefType {
+			// an addition that only reads (an accessor, a Slice, an iterator) cannot make the fork behave differently
+			// from the reference on the reference's operations; anything that may write has no reference to be
+			// validated against
+			if es := c.An.FuncEffects(fi.SSA); !es.all && len(es.cls) == 0 {
+				R.Held(pfx+"api-surface", "lists."+name, "read-only-addition", c.pos(fi), "not in the reference; writes nothing but its own locals")
+				continue
+			}
 			extra = append(extra, name)
 		}
 	}
